@@ -279,6 +279,9 @@ CONSTRUCTED = [
     ([("CC(=O)", 1, "CC(=O)OC", 3), ("CO", None, "CO", None)], "alcohol_catalyst"),
     ([("CC(=O)", 1, "CC(=O)OC", 3), ("O", None, "O", None)], "water_catalyst"),
     ([("CC", 1, "CCOC", 2), ("O", None, "O", None), ("CCN(CC)CC", None, "CCN(CC)CC", None)], "water_not_last"),
+    ([("CC(=O)", 1, "CC(=O)OC", 3), ("O", None, "O", None), ("O", None, "O", None)], "two_waters"),
+    ([("CC", 1, "CCOC", 2), ("O", None, "O", None), ("O", None, "O", None), ("O", None, "O", None)], "three_waters"),
+    ([("CC(=O)", 1, "CC(=O)OC", 3), ("CO", None, "CO", None), ("O", None, "O", None), ("O", None, "O", None)], "alcohol_and_waters"),
     ([("CC", 1, "CCSC", 2)], "thioether"),
     ([("CC(=O)", 1, "CC(=O)SC", 3)], "thioester"),
     ([("CC(=O)", 1, "CC(=O)NC", 3)], "amide"),
@@ -322,7 +325,7 @@ def constructed(res, merge, CompoundSet):
             names = [r.name for r in result.rules]
             for n in names:
                 res.add("rules_fired", n)
-            removed = 1 if "remove_water_catalyst" in names else 0
+            removed = names.count("remove_water_catalyst")  # one report per removed water
             general_checks(result, mols, res, w, extra_heavy=-removed)
 
 
@@ -402,7 +405,7 @@ def pipeline_part(n, seed, res):
         res.ev()
         res.count("pipeline_merges")
         names = [r.name for r in out.rules]
-        removed = sum(1 for s, nb in frs if s == "O" and nb == 0) if "remove_water_catalyst" in names else 0
+        removed = names.count("remove_water_catalyst")  # the reported rules have to explain every removed water
         mols = [Chem.MolFromSmiles(s) for s, _ in frs]
         if any(m is None for m in mols):
             continue
